@@ -9,6 +9,11 @@
 mod gen;
 mod ops;
 mod oracle;
+mod orc_a;
+mod orc_b;
+mod orc_c;
+mod orc_d;
+mod spec;
 mod util;
 
 use std::io::{BufRead, BufWriter, Write};
